@@ -370,6 +370,21 @@ def c03_direct(case, obs):
         schema, _ = _payload(case)
         return ("C03: the struct-mapped object %s the input that the same schema rebuilt map-based %s: %s"
                 % ("accepts" if a == "ok" else "rejects", "rejects" if b == "err" else "accepts", _describe(schema, op)))
+    # "Validate and Serialize apply the same rules to native values": one native value, one verdict
+    schema, ops = _payload(case)
+    oo = _obs_ops(obs)
+    if oo is None:
+        return None
+    byval = {}
+    for op, o in zip(ops, oo):
+        if op[0] in ("v", "s") and _cls(o) in ("ok", "err"):
+            byval.setdefault(_fmt(op[1]), {})[op[0]] = (_cls(o), op)
+    for d in byval.values():
+        if "v" in d and "s" in d and d["v"][0] != d["s"][0]:
+            return ("C03: Validate %s and Serialize %s the same native value of a struct-mapped object (presence rules / "
+                    "treat-empty-as-default must be applied alike on both paths): %s"
+                    % ("accepts" if d["v"][0] == "ok" else "rejects", "accepts" if d["s"][0] == "ok" else "rejects",
+                       _describe(schema, d["v"][1])))
     return None
 
 
